@@ -212,6 +212,42 @@ func features() []feature {
 		n := n
 		add("param-named:"+n, func(d *schemaDoc) { d.fn("odd#ID %s:int other:string = Point;", n) })
 	}
+	// an enumeration with a single value, used as a field, as a vector item and as a result
+	add("single-value-enum-referenced", func(d *schemaDoc) {
+		d.typ("onlyModeOn#ID = OnlyMode;")
+		d.typ("modeHolder#ID m:OnlyMode ms:Vector<OnlyMode> f:int = ModeHolder;")
+		d.fn("getMode#ID h:ModeHolder = OnlyMode;")
+	})
+	// an enumeration value named like its type (as `null = Null` in Telegram's schemas), alone and among others
+	add("enum-value-named-as-type(single)", func(d *schemaDoc) {
+		d.typ("nothing#ID = Nothing;")
+		d.typ("nothingHolder#ID n:Nothing f:int = NothingHolder;")
+		d.fn("getNothing#ID = Nothing;")
+	})
+	add("enum-value-named-as-type(multi)", func(d *schemaDoc) {
+		d.typ("mode#ID = Mode;")
+		d.typ("modeOff#ID = Mode;")
+		d.fn("getTheMode#ID m:Mode = Mode;")
+	})
+	// constructors of one type that do not follow each other (layer-ordered schemas append new constructors at
+	// the end): a type, an enumeration, and a type continued in a second types section
+	add("constructors-of-a-type-not-adjacent", func(d *schemaDoc) {
+		d.typ("animalCat#ID lives:int = Animal;")
+		d.typ("plant#ID name:string = Plant;")
+		d.typ("animalDog#ID name:string = Animal;")
+		d.fn("getAnimal#ID p:Plant = Animal;")
+	})
+	add("enum-values-not-adjacent", func(d *schemaDoc) {
+		d.typ("dirUp#ID = Dir;")
+		d.typ("mid#ID x:int d:Dir = Mid;")
+		d.typ("dirDown#ID = Dir;")
+		d.fn("getDir#ID m:Mid = Dir;")
+	})
+	add("type-continued-in-a-second-types-section", func(d *schemaDoc) {
+		d.typ("fruitApple#ID a:int = Fruit;")
+		d.types2 = append(d.types2, strings.Replace("fruitPear#ID b:string = Fruit;", "#ID", "#"+d.id(), 1))
+		d.fn("getFruit#ID = Fruit;")
+	})
 	add("field-named-like-method", func(d *schemaDoc) { d.typ("weird#ID crc:int flag_index:int = Weird;") })
 	return fs
 }
